@@ -80,7 +80,7 @@ def validOp (dim : Nat) (ws : List String) : String :=
           let m : Mesh3 Float := ⟨xyz, cells.map fun r => ⟨r.getD 0 0, r.getD 1 0, r.getD 2 0, r.getD 3 0⟩,
                                   bnd.map fun r => ⟨r.getD 0 0, r.getD 1 0, r.getD 2 0, r.getD 3 0⟩⟩
           if !(valid3Range m) then "range=bad" else
-          s!"range=ok vol={okBad (valid3Vol m)} face={okBad (valid3Face m)} bnd={okBad (valid3Bnd m)} used={okBad (valid3Used m)}"
+          s!"range=ok vol={okBad (valid3Vol m)} face={okBad (valid3Face m)} bnd={okBad (valid3Bnd m)} used={okBad (valid3Used m)} orient={okBad (valid3Orient m)}"
         else
           let m : Mesh2 Float := ⟨xyz, cells.map fun r => ⟨r.getD 0 0, r.getD 1 0, r.getD 2 0, r.getD 3 0⟩,
                                   bnd.map fun r => ⟨r.getD 0 0, r.getD 1 0, r.getD 2 0⟩⟩
